@@ -10,7 +10,7 @@ PROFILES = {
             "req": {"incr": 0.3, "set": 0.12, "ssr": 0.15, "reload": 0.15, "kill": 0.05, "signal": 0.02, "rm": 0.01, "add": 0.02, "quit": 0.0, "ro": 0.05}},
     "C02": {"stubborn": 0.2, "on_demand": 0.3, "recipes": {"on_demand_stop": 0.12, "pattern_subset": 0.05}, "ops": {"die": 0.1, "fault": 0.08, "check": 0.15, "sockev": 0.05},
             "req": {"ssr": 0.4, "reload": 0.05, "incr": 0.1, "set": 0.12, "kill": 0.07, "signal": 0.03, "rm": 0.08, "add": 0.03, "quit": 0.02, "ro": 0.03}},
-    "C03": {"stubborn": 0.25, "ops": {"wake": 0.5, "die": 0.06, "adv": 0.08},
+    "C03": {"stubborn": 0.25, "recipes": {"children_vanish": 0.06}, "ops": {"wake": 0.5, "die": 0.06, "adv": 0.08},
             "req": {"ssr": 0.3, "reload": 0.12, "incr": 0.15, "set": 0.08, "kill": 0.22, "signal": 0.02, "rm": 0.03, "add": 0.01, "quit": 0.01, "ro": 0.02}},
     "C04": {"exec_fail": 0.2, "hooks": True, "recipes": {"untracked_zombies": 0.08, "on_demand_stop": 0.05}, "ops": {"die": 0.1, "fault": 0.08, "check": 0.2},
             "req": {"ssr": 0.3, "reload": 0.1, "incr": 0.15, "set": 0.05, "kill": 0.08, "signal": 0.02, "rm": 0.05, "add": 0.05, "quit": 0.0, "ro": 0.15}},
@@ -25,7 +25,7 @@ PROFILES = {
     "C14": {"recipes": {"signal_veto": 0.05}, "hooks": True, "stubborn": 0.2, "ops": {"wake": 0.45},
             "req": {"ssr": 0.45, "reload": 0.08, "incr": 0.08, "set": 0.02, "kill": 0.12, "signal": 0.12, "rm": 0.02, "add": 0.02, "quit": 0.0, "ro": 0.02}},
     "C15": {"ops": {"wake": 0.3}, "req": {"add": 0.22, "rm": 0.15, "ssr": 0.25, "ro": 0.25, "incr": 0.03, "set": 0.02, "kill": 0.02, "signal": 0.02, "reload": 0.02, "quit": 0.0}},
-    "C18": {"recipes": {"signal_veto": 0.03}, "ops": {"wake": 0.3}, "req": {"signal": 0.4, "kill": 0.3, "ssr": 0.1, "incr": 0.03, "set": 0.02, "rm": 0.02, "add": 0.03, "reload": 0.02, "quit": 0.0, "ro": 0.03}},
+    "C18": {"recipes": {"signal_veto": 0.03, "children_vanish": 0.04}, "ops": {"wake": 0.3}, "req": {"signal": 0.4, "kill": 0.3, "ssr": 0.1, "incr": 0.03, "set": 0.02, "rm": 0.02, "add": 0.03, "reload": 0.02, "quit": 0.0, "ro": 0.03}},
     "C19": {"start_first": 1.0, "recipes": {"topup_start": 0.15, "pattern_subset": 0.08}, "ops": {"wake": 0.75, "adv": 0.08, "die": 0.08, "check": 0.0, "xkill": 0.02, "fault": 0.03, "raw": 0.0, "sig": 0.0},
             "req": {"ro": 0.9, "ssr": 0.1, "reload": 0, "incr": 0, "set": 0, "kill": 0, "signal": 0, "rm": 0, "add": 0, "quit": 0}},
 }
